@@ -643,3 +643,30 @@ func phiOnPath(v ssa.Value, blocks []*ssa.BasicBlock) ssa.Value {
 	}
 	return v
 }
+
+// reachesBlock: some path of at least one edge leads from `from` to `to` (from == to asks whether the block lies on a cycle).
+func reachesBlock(from, to *ssa.BasicBlock) bool {
+	seen := map[*ssa.BasicBlock]bool{}
+	var rec func(b *ssa.BasicBlock) bool
+	rec = func(b *ssa.BasicBlock) bool {
+		if b == to {
+			return true
+		}
+		if seen[b] {
+			return false
+		}
+		seen[b] = true
+		for _, s := range b.Succs {
+			if rec(s) {
+				return true
+			}
+		}
+		return false
+	}
+	for _, s := range from.Succs {
+		if rec(s) {
+			return true
+		}
+	}
+	return false
+}
